@@ -243,6 +243,10 @@ pub struct Net {
     /// message that no application sent
     #[serde(default)]
     pub probes: Vec<DeadProbe>,
+    /// non-empty: the hosts are registered by IP literal in this order (no DNS names exist then; every place
+    /// that would name a host uses the literal), so that a link's earlier-registered end may have the larger address
+    #[serde(default)]
+    pub literal_order: Vec<usize>,
 }
 
 #[derive(Clone, Debug, Serialize, Deserialize, PartialEq)]
@@ -256,6 +260,21 @@ pub const DEAD_PORT: u16 = 7999;
 
 pub fn host_name(i: usize) -> String {
     format!("h{i}")
+}
+
+thread_local! {
+    /// (literal mode, ipv6) of the execution running on this thread
+    static LITERAL: Cell<(bool, bool)> = const { Cell::new((false, false)) };
+}
+
+/// What host code and fault calls use where they would use the host's name.
+fn host_ref(i: usize) -> String {
+    let (lit, v6) = LITERAL.with(|l| l.get());
+    if lit {
+        host_ip(i, v6).to_string()
+    } else {
+        host_name(i)
+    }
 }
 
 pub fn host_ip(i: usize, v6: bool) -> IpAddr {
@@ -391,7 +410,7 @@ enum R {
 
 fn resolve(sel: &Sel, v6: bool) -> R {
     match sel {
-        Sel::Name(i) => R::S(host_name(*i)),
+        Sel::Name(i) => R::S(host_ref(*i)),
         Sel::IpStr(i) => R::S(host_ip(*i, v6).to_string()),
         Sel::Ip(i) => R::I(host_ip(*i, v6)),
         Sel::Set(v) => {
@@ -541,7 +560,7 @@ async fn udp_tx(ctx: Ctx, me: usize, b: UdpBurst, sock: Rc<UdpSocket>) {
         let r = if b.by_ip {
             sock.send_to(&frame, SocketAddr::new(ctx.ips[b.to], UDP_PORT)).await
         } else {
-            sock.send_to(&frame, (host_name(b.to), UDP_PORT)).await
+            sock.send_to(&frame, (host_ref(b.to), UDP_PORT)).await
         };
         if let Err(e) = r {
             ctx.ev(Some(me), hnow(), EvKind::IoErr(format!("udp send: {:?}", e.kind())));
@@ -626,7 +645,7 @@ async fn client_conn(ctx: Ctx, me: usize, id: u16, c: Conn) {
     let res = if c.by_ip {
         TcpStream::connect(SocketAddr::new(ctx.ips[c.to], TCP_PORT)).await
     } else {
-        TcpStream::connect((host_name(c.to), TCP_PORT)).await
+        TcpStream::connect((host_ref(c.to), TCP_PORT)).await
     };
     match res {
         Ok(s) => {
@@ -875,12 +894,32 @@ pub fn execute(net: &Net, keep: bool) -> (Trace, Log) {
     let mut harness_error = None;
     let res = catch(|| {
         let mut sim = net.cfg.build();
-        for i in 0..net.hosts {
-            let c = ctx.clone();
-            sim.host(host_name(i), move || host_main(c.clone(), i));
+        let literal = !net.literal_order.is_empty();
+        LITERAL.with(|l| l.set((literal, net.cfg.ipv6)));
+        if literal {
+            let mut order = net.literal_order.clone();
+            order.retain(|i| *i < net.hosts);
+            for i in 0..net.hosts {
+                if !order.contains(&i) {
+                    order.push(i);
+                }
+            }
+            for i in order {
+                let c = ctx.clone();
+                if i % 2 == 0 {
+                    sim.host(ips[i], move || host_main(c.clone(), i));
+                } else {
+                    sim.host(ips[i].to_string(), move || host_main(c.clone(), i));
+                }
+            }
+        } else {
+            for i in 0..net.hosts {
+                let c = ctx.clone();
+                sim.host(host_name(i), move || host_main(c.clone(), i));
+            }
         }
         for (i, ip) in ips.iter().enumerate() {
-            if sim.lookup(host_name(i)) != *ip {
+            if sim.lookup(host_ref(i)) != *ip {
                 harness_error = Some(format!("host {i} got address {} instead of {ip}", sim.lookup(host_name(i))));
                 return;
             }
@@ -912,6 +951,7 @@ pub fn execute(net: &Net, keep: bool) -> (Trace, Log) {
         }
         drop(sim);
     });
+    LITERAL.with(|l| l.set((false, false)));
     let evs = std::mem::take(&mut *ctx.evs.borrow_mut());
     let log = ctx.log.take();
     (Trace { evs, steps_done, panic: res.err(), step_err, harness_error }, log)
